@@ -13,9 +13,15 @@
   hypothesis is `TsOk`: a timestamp contains no newline (it is `str(datetime.now())`).
 
   Part (b): the property as stated ("entries appended meanwhile present exactly once") is FALSE
-  of the code (F5); it is refuted on three concrete schedules below, which are replayed on the
-  real code by the harness, and proved for exactly the schedules in which no `append_string`
-  overlaps a `load()` (`okRun`).  With several simultaneous `load()` calls the current code can
+  of the code without the repair proposed_fixes/C13-threaded-append.diff (F5); it is refuted on
+  three concrete schedules below, which are replayed on the real code by the harness, and proved
+  for exactly the schedules in which no `append_string` overlaps a `load()` (`okRun`).
+  Part (b′): for the code WITH that repair (`stepF`, `Ptk.Model.C13Fixed`) the property is proved
+  for ALL interleavings, including cancelled `load()` calls and an inner history that raises
+  (`fixed_append_exactly_once`, `fixed_loader_only_equiv`, `fixed_terminates`; with any number of
+  simultaneous `load()` calls: `multi_fixed_exactly_once` in `Props/C13FixedMulti.lean`).  Which of the two
+  models the correspondence runs against the tree is decided by the generated flag
+  `Gen.C13.appendFixed`; the other one is run against the tree + the proposed diff.  With several simultaneous `load()` calls the current code can
   lose the final wake-up (F5d, `f5d_lost_wakeup`); with the proposed fix (notify loops over a
   copy of the event list) it cannot (`multi_no_lost_wakeup`).
 -/
@@ -23,6 +29,10 @@ import Ptk.Props.C13File
 import Ptk.Props.C13Utf8
 import Ptk.Props.C13Threaded
 import Ptk.Props.C13Multi
+import Ptk.Props.C13Fixed
+import Ptk.Props.C13FixedMulti
+import Ptk.Props.C13Mem
+import Ptk.Props.C13Foreign
 namespace Ptk.C13
 open Ptk.Py
 
@@ -223,6 +233,40 @@ theorem recover_after_garbage (g : Bytes) (es' : List (Text × Text)) (hts' : Ts
 example : loadFile utf8 ([0x2B, 0xF0, 0x9F, 10, 0xFF, 0x2B] ++ stores utf8 [("T".toList, "x".toList)])
     = ["x".toList, [repl]] := by decide
 
+/-! ## (a′) foreign lines, several writers -/
+
+/-- FOREIGN LINES ARE IGNORED: a file that consists of complete records and, anywhere between them (also
+    in front and at the end), blocks of complete lines that do not decode to something starting with
+    `+` — `# …` comments of other programs, blank lines, any text — loads exactly the entries of its
+    records, newest first.  Only a line inside a record could damage an entry; a timestamp comment is
+    just one instance of such a line. -/
+theorem foreign_lines_ignored (segs : List Seg) (hok : ∀ g ∈ segs, SegOk utf8 g) :
+    loadFile utf8 (segs.flatMap (segBytes utf8)) = (segs.flatMap segEntries).reverse := by
+  have := loadRun_segs utf8_good segs hok ⟨[], []⟩
+  simp only [add_nil_lines, List.nil_append] at this
+  simp [loadFile, this]
+
+example : SegOk utf8 (.foreign ["# written by another tool".toList.map Char.toNat, [], "hello".toList.map Char.toNat]) := by
+  intro l hl
+  simp only [List.mem_cons, List.mem_nil_iff, or_false] at hl
+  rcases hl with rfl | rfl | rfl <;> exact foreign_ascii _ (by decide) (by decide)
+
+example : loadFile utf8 (stores utf8 [("T".toList, "a\n+".toList)]
+      ++ foreignBlock ["# x".toList.map Char.toNat, [], "hello".toList.map Char.toNat]
+      ++ stores utf8 [("T".toList, "#b".toList)]) = ["#b".toList, "a\n+".toList] := by decide
+
+/-- … but with the header and every line written by a `write()` call of its own (the current code when
+    the record does not fit into the file object's buffer), the calls of two processes can interleave
+    and two entries come back as ONE (observation, outside the statement of the property:
+    "alternating" appends are sequential; hardening proposed) -/
+theorem multi_write_interleave_merges :
+    loadFile utf8 (interleaveWrites [procWrites false utf8 [("T".toList, "a".toList)],
+        procWrites false utf8 [("U".toList, "b".toList)]] [0, 1, 1, 0]) = ["b\na".toList] := by decide
+
+example : loadFile utf8 (interleaveWrites [procWrites true utf8 [("T".toList, "a".toList)],
+        procWrites true utf8 [("U".toList, "b".toList)]] [0, 1, 1, 0]) = ["b".toList, "a".toList] := by decide
+
+
 /-! ## (b) ThreadedHistory -/
 
 /-- NO OVERLAP ⇒ EXACT: in every interleaving in which no `append_string` overlaps a `load()`
@@ -403,5 +447,223 @@ example : ((runN true (THn.init [] []) (f5dSchedule ++ [.lset, .cwait 1, .cread 
 
 example : ((runN true (THn.init ["a".toList] []) [.cstart 0, .cstart 1, .lreset]).cons 1).active := by
   unfold Cons.active; decide
+
+/-! ## (b′) ThreadedHistory with the repair of F5 (`stepF`): the property for ALL interleavings -/
+
+/-- the ghost `hist0` is the logical history at the moment `load()` is called -/
+theorem fixed_hist0_spec (st : THF) (h : st.cpc = .idle ∨ st.cpc = .done) :
+    (stepF st .cstart).hist0 = st.view ∧ (stepF st .cstart).out = [] ∧
+    (stepF st .cstart).shift = 0 := by
+  simp [stepF, h, THF.shift]
+
+/-- APPENDED MEANWHILE ⇒ EXACTLY ONCE, for EVERY interleaving of the loader thread, the consumer,
+    any number of `append_string` calls, cancellations and later `load()` calls (no hypothesis on the
+    schedule):
+    (1) while a `load()` call is in progress it has yielded a prefix of the history as it was when
+        the call began (`hist0`), and the current history is `hist0` with the entries appended since
+        then in front;
+    (2) a call that runs to its end (inner history did not raise) has yielded exactly `hist0`,
+        newest first, followed by `front` = the entries appended between the call and its final
+        locked read — every entry exactly once, none lost, none twice; entries appended after that
+        read (`later`) are not part of this call;
+    (3) once loading is done the cache (`get_strings()`, and so every later `load()`) holds the
+        whole history, every entry once, in order. -/
+theorem fixed_append_exactly_once (old pre : List Text) (sched : List StepF) :
+    let st := runF (THF.init old pre) sched
+    (st.active → st.out <+: st.hist0 ∧ st.view = st.view.take st.shift ++ st.hist0) ∧
+    (st.cpc = .done → st.complete = true → st.failed = false →
+      st.out = st.hist0 ++ st.front ∧ st.out.Perm (st.front ++ st.hist0) ∧
+      ∃ later, st.view = later ++ (st.front ++ st.hist0)) ∧
+    (st.loaded = true → st.failed = false → st.getStrings = st.storage) := by
+  intro st
+  have h : InvF st := invF_run _ (invF_init old pre) sched
+  refine ⟨fun ha => ⟨?_, ?_⟩, fun hd hc hf => ⟨?_, ?_, ?_⟩, fun hl hf => ?_⟩
+  · rw [h.cons ha]; exact List.take_prefix _ _
+  · rw [← h.hist ha, List.take_append_drop]
+  · exact (h.done hd hc).2 hf
+  · rw [(h.done hd hc).2 hf]; exact List.perm_append_comm
+  · exact h.frontOk (Or.inr ⟨hd, hc⟩)
+  · simp [THF.getStrings, h.full hl hf, THF.view]
+
+/-- the three schedules of F5a-c (overlapping `append_string`) on the repaired code: the new entry
+    is yielded exactly once, nothing twice, nothing lost -/
+example : (runF (THF.init ["o1".toList, "o2".toList] [])
+      [.cstart, .lreset, .app "NEW".toList, .lappend, .lnotify, .lappend,
+       .lnotify, .ldone, .lfinal, .cwait, .cread, .cyield]).out
+    = ["o2".toList, "o1".toList, "NEW".toList] := by decide
+example : (runF (THF.init ["o1".toList, "o2".toList] [])
+      [.cstart, .lreset, .lappend, .lnotify, .cwait, .cread, .cyield, .app "NEW".toList,
+       .lappend, .lnotify, .ldone, .lfinal, .cwait, .cread, .cyield]).out
+    = ["o2".toList, "o1".toList, "NEW".toList] := by decide
+example :
+    let st := runF (THF.init ["o1".toList] [])
+      [.cstart, .app "NEW".toList, .lreset, .lappend, .lnotify, .lappend, .lnotify, .ldone, .lfinal,
+       .cwait, .cread, .cyield]
+    st.out = ["o1".toList, "NEW".toList] ∧ st.cpc = .done ∧ st.complete = true ∧
+    st.getStrings = ["o1".toList, "NEW".toList] ∧ st.storage = ["o1".toList, "NEW".toList] := by decide
+-- a cancelled call, an append, then a new call: the new call yields everything in order
+example :
+    let st := runF (THF.init ["o1".toList, "o2".toList] [])
+      [.cstart, .lreset, .lappend, .lnotify, .cwait, .cread, .app "X".toList, .ccancel, .cstart,
+       .lappend, .lnotify, .ldone, .lfinal, .cwait, .cread, .cyield]
+    st.out = ["X".toList, "o2".toList, "o1".toList] ∧ st.complete = true ∧ st.front = [] := by decide
+
+/-- schedules without any `append_string` -/
+def noApp (sched : List StepF) : Prop := ∀ a ∈ sched, ∀ s, a ≠ .app s
+
+structure InvNA (S : List Text) (n : Nat) (st : THF) : Prop where
+  sto : st.storage = S
+  ins : st.inserted = n
+  seen : st.cpc ≠ .idle → st.seen = n
+  h0 : st.cpc ≠ .idle → st.hist0 = S.reverse
+  fr : st.front = []
+
+theorem invNA_step (S : List Text) (n : Nat) (st : THF) (h : InvNA S n st) (a : StepF)
+    (ha : ∀ s, a ≠ .app s) : InvNA S n (stepF st a) := by
+  have h1 := h.sto
+  have h2 := h.ins
+  have h3 := h.seen
+  have h4 := h.h0
+  have h5 := h.fr
+  cases a with
+  | app s => exact absurd rfl (ha s)
+  | cread =>
+    simp only [stepF]
+    split
+    · rename_i hc
+      have : st.seen = n := h3 (by simp [hc])
+      constructor <;> simp_all [THF.view, THF.shift]
+    · exact h
+  | lappend =>
+    simp only [stepF]
+    split
+    · split
+      · constructor <;> simp_all
+      · exact h
+    · exact h
+  | lfail =>
+    simp only [stepF]
+    split
+    · constructor <;> simp_all
+    · split
+      · constructor <;> simp_all
+      · exact h
+  | cstart =>
+    simp only [stepF]
+    split
+    · constructor <;> simp_all [THF.view]
+    · exact h
+  | cwait => simp only [stepF]; split <;> first | exact h | (constructor <;> simp_all)
+  | cyield =>
+    simp only [stepF]
+    split
+    · rename_i hc
+      have h3' := h3 (by simp [hc])
+      have h4' := h4 (by simp [hc])
+      constructor <;> simp_all
+    · exact h
+  | ccancel =>
+    simp only [stepF]
+    split
+    · rename_i hc
+      have hne : st.cpc ≠ .idle := by rcases hc with hc | hc | hc <;> simp [hc]
+      have h3' := h3 hne
+      have h4' := h4 hne
+      constructor <;> simp_all
+    · exact h
+  | lreset => simp only [stepF]; split <;> first | exact h | (constructor <;> simp_all)
+  | lnotify => simp only [stepF]; split <;> first | exact h | (constructor <;> simp_all)
+  | ldone => simp only [stepF]; split <;> first | exact h | (constructor <;> simp_all)
+  | lfinal => simp only [stepF]; split <;> first | exact h | (constructor <;> simp_all)
+
+theorem invNA_run (S : List Text) (n : Nat) (st : THF) (h : InvNA S n st) (sched : List StepF)
+    (hs : noApp sched) : InvNA S n (runF st sched) := by
+  induction sched generalizing st with
+  | nil => exact h
+  | cons a r ih =>
+    simp only [runF, List.foldl_cons]
+    exact ih (stepF st a) (invNA_step S n st h a (hs a (by simp)))
+      (fun b hb => hs b (by simp [hb]))
+
+/-- BACKGROUND = INLINE on the repaired code: with no concurrent `append_string`, under every
+    interleaving of loader thread and consumer (with cancellations and repeated `load()` calls) a
+    `load()` call has always yielded a prefix of, and on completion exactly, the reversed store. -/
+theorem fixed_loader_only_equiv (old pre : List Text) (sched : List StepF) (hs : noApp sched) :
+    let st := runF (THF.init old pre) sched
+    st.storage = old ++ pre ∧
+    (st.active → st.out <+: (old ++ pre).reverse) ∧
+    (st.cpc = .done → st.complete = true → st.failed = false → st.out = (old ++ pre).reverse) := by
+  intro st
+  have hna0 : InvNA (old ++ pre) pre.length (THF.init old pre) := by
+    constructor <;> simp [THF.init]
+  have hna : InvNA (old ++ pre) pre.length st := invNA_run _ _ _ hna0 sched hs
+  have h := fixed_append_exactly_once old pre sched
+  refine ⟨hna.sto, fun ha => ?_, fun hd hc hf => ?_⟩
+  · have hne : st.cpc ≠ .idle := by rcases ha with ha | ha | ha <;> simp [ha]
+    rw [← hna.h0 hne]; exact (h.1 ha).1
+  · have hne : st.cpc ≠ .idle := by simp [hd]
+    rw [(h.2.1 hd hc hf).1, hna.fr, hna.h0 hne, List.append_nil]
+
+/-- TERMINATION / no lost wake-up on the repaired code, from EVERY reachable state (whatever
+    appends, cancellations and failures of the inner history happened before): a sequence of loader /
+    consumer steps that all change the state is never longer than `budgetF`, and while a `load()`
+    call is in progress some loader / consumer step changes the state.  So every maximal run
+    completes the call — also when the inner history raises (`.lfail`): the consumer never hangs. -/
+theorem fixed_terminates (old pre : List Text) (sched : List StepF) :
+    let st := runF (THF.init old pre) sched
+    (∀ more : List StepF, (∀ a ∈ more, isLoadStepF a) → effectiveF st more →
+        more.length ≤ budgetF st) ∧
+    (st.active → ∃ a, isLoadStepF a ∧ stepF st a ≠ st) := by
+  intro st
+  refine ⟨fun more hm he => ?_, no_deadlockF st (invF_run _ (invF_init old pre) sched)⟩
+  have := sched_boundedF st more hm he
+  omega
+
+-- the inner history raises after one item: the call still completes, with a prefix
+example :
+    let st := runF (THF.init ["o1".toList, "o2".toList] [])
+      [.cstart, .lreset, .lappend, .lnotify, .lfail, .ldone, .lfinal, .cwait, .cread, .cyield]
+    st.cpc = .done ∧ st.failed = true ∧ st.out = ["o2".toList] := by decide
+example : budgetF (runF (THF.init ["o1".toList, "o2".toList] []) [.cstart, .app "x".toList]) = 43 := by decide
+
+/-- BACKGROUND = INLINE for a file-backed history on the repaired code -/
+theorem fixed_threaded_file_equiv (es : List (Text × Text)) (hts : TsOk es) (sched : List StepF)
+    (hs : noApp sched) :
+    let st := runF (THF.init (es.map (·.2)) []) sched
+    st.cpc = .done → st.complete = true → st.failed = false →
+      st.out = loadFile utf8 (stores utf8 es) := by
+  intro st hd hc hf
+  have := (fixed_loader_only_equiv (es.map (·.2)) [] sched hs).2.2 hd hc hf
+  rw [roundtrip es hts]
+  simpa using this
+
+/-- the strings appended by a schedule, in order -/
+def appsOf : List StepF → List Text
+  | [] => []
+  | .app s :: r => s :: appsOf r
+  | _ :: r => appsOf r
+
+theorem storage_stepF (st : THF) (a : StepF) :
+    (stepF st a).storage = st.storage ++ appsOf [a] := by
+  cases a <;> simp only [stepF, appsOf, List.append_nil] <;> (repeat' split) <;> rfl
+
+/-- DURABLE: under every interleaving every `append_string` reaches the inner store exactly once,
+    in call order, behind what was there (so that, with `roundtrip`, a fresh `FileHistory` reads
+    all of them back); nothing else is ever written. -/
+theorem fixed_store_exact (old pre : List Text) (sched : List StepF) :
+    (runF (THF.init old pre) sched).storage = old ++ pre ++ appsOf sched := by
+  have key : ∀ (sched : List StepF) (st : THF), (runF st sched).storage = st.storage ++ appsOf sched := by
+    intro sched
+    induction sched with
+    | nil => intro st; simp [runF, appsOf]
+    | cons a r ih =>
+      intro st
+      simp only [runF, List.foldl_cons] at ih ⊢
+      rw [ih, storage_stepF]
+      cases a <;> simp [appsOf]
+  simpa [THF.init] using key sched (THF.init old pre)
+
+example : (runF (THF.init ["o".toList] []) [.cstart, .app "a".toList, .lreset, .ccancel, .app "b".toList]).storage
+    = ["o".toList, "a".toList, "b".toList] := by decide
 
 end Ptk.C13
